@@ -117,7 +117,7 @@ def fuzz_shards(res, bins, payload, seed, valgrind_execs=1500, miri_execs=240, m
             record(res, tool, status, detail, "fuzz " + " ".join(map(str, args)), {"op": "fuzz", "tool": tool, "args": args})
             if status == "ok":
                 try:
-                    r = json.loads(detail.strip().splitlines()[-1])
+                    r = json.loads(detail.strip().split("\n")[-1])
                     res.counters["%s-execs" % tool] += r["execs"]
                     res.evaluations += r["execs"]
                     res.distinct_extra += r.get("distinct", 0)
